@@ -335,6 +335,14 @@ def generate(rng, tier):
             v2 = rng.choice((v1, v1, v1 + 1, v1 - 1, rand_value(rng, ver2))) & MAXV[ver2]
             d1, d2 = rng.choice(dialects(ver)), rng.choice(dialects(ver2))
             cases.append(Case('eui_cmp %d %d %d %d' % (ver, v1, ver2, v2), 'cmp', ('cmp', ver, d1, v1, ver2, d2, v2)))
+        # identifiers that differ in exactly one bit - every bit position of the width, every run: equality and hash
+        # are by (version, value) and a value has `ver` independent bits (a seeded change packed version and value
+        # into one integer, and bit 54 of an EUI-64 fell on top of the version)
+        vb = rand_value(rng, ver)
+        for bit in range(ver):
+            d1, d2 = rng.choice(dialects(ver)), rng.choice(dialects(ver))
+            cases.append(Case('eui_cmp %d %d %d %d' % (ver, vb, ver, vb ^ (1 << bit)), 'cmp/one-bit',
+                              ('cmp', ver, d1, vb, ver, d2, vb ^ (1 << bit))))
     # IAB: EUI-48 receivers
     for _ in range(40 * mult):
         p = rng.choice(IABS + (IABS[0] + 1, IABS[1] - 1, rng.getrandbits(24)))
